@@ -278,6 +278,17 @@ func stepSel(sg selSeg, cur Val) (Val, bool) {
 	case sg.isField:
 		return cur.get(sg.field)
 	case sg.isIndex:
+		if cur.K == "bytes" {
+			// an index into a byte string is the byte, as an integer
+			i := sg.idx
+			if i < 0 {
+				i += len(cur.X)
+			}
+			if i < 0 || i >= len(cur.X) {
+				return Val{}, false
+			}
+			return vInt(int64(cur.X[i])), true
+		}
 		if cur.K != "list" {
 			return Val{}, false
 		}
@@ -298,6 +309,9 @@ func stepSel(sg selSeg, cur Val) (Val, bool) {
 			rs := []rune(cur.S)
 			a, b := sliceBounds(sg, len(rs))
 			return vStr(string(rs[a:b])), true
+		case "bytes":
+			a, b := sliceBounds(sg, len(cur.X))
+			return vBytes(append([]byte{}, cur.X[a:b]...)), true
 		}
 		return Val{}, false
 	}
